@@ -214,7 +214,8 @@ pub fn validate(toks: Vec<Tok>) -> Vec<Tok> {
 /// `TlsHostsSettings` validation through the builder and through the hosts-file text + `Core::new`.
 /// in : [bad_group (0 none, 1 main, 2 reverse proxy, 3 ping, 4 speedtest), bad_index, bad_kind] main rp ping speed [alts]
 ///      (names: flat [len, bytes...]*; alts: the main hosts' alternative SNIs, flat [main index, len, bytes...]*;
-///      the host at bad_group/bad_index: bad_kind 0 (or absent) = certificate and key paths name a file that holds neither,
+///      the host at bad_group/bad_index: bad_kind 2 / 3 = the certificate file holds a good certificate and a damaged section (not base64 / cut short), the key file is good;
+///      bad_kind 0 (or absent) = certificate and key paths name a file that holds neither,
 ///      1 = the certificate path names a file that holds the key only, the key path is good)
 /// out: [builder refused, Core::new refused]
 pub fn hosts(toks: Vec<Tok>) -> Vec<Tok> {
@@ -247,8 +248,19 @@ pub fn hosts(toks: Vec<Tok>) -> Vec<Tok> {
         }
     }
     let is_bad = |g: usize, k: usize| bg as usize == g + 1 && bi == k;
-    let path = |g: usize, k: usize| if !is_bad(g, k) { good.clone() } else if bad_kind == 1 { key_only.clone() } else { bad.clone() };
-    let key_path = |g: usize, k: usize| if is_bad(g, k) && bad_kind != 1 { bad.clone() } else { good.clone() };
+    let path = |g: usize, k: usize| {
+        if !is_bad(g, k) {
+            good.clone()
+        } else if bad_kind == 1 {
+            key_only.clone()
+        } else if bad_kind == 2 || bad_kind == 3 {
+            // a good certificate followed by a damaged section
+            crate::ctxutil::damaged_chain_path(bad_kind)
+        } else {
+            bad.clone()
+        }
+    };
+    let key_path = |g: usize, k: usize| if is_bad(g, k) && bad_kind == 0 { bad.clone() } else { good.clone() };
     let infos = |g: usize| -> Vec<TlsHostInfo> {
         groups[g]
             .iter()
